@@ -53,7 +53,7 @@ Definition vis (s : st) : list nat := lst s ++ match mtx s with Some t => chain_
 
 Definition passed (k : kst) (j : nat) : Prop :=
   match k with
-  | KReady j' | KLock j' _ | KSusp j' _ => (j < j')%nat
+  | KReady j' | KLock j' _ | KEnq j' _ | KSusp j' _ => (j < j')%nat
   | KResumed j' => (j <= j')%nat
   | KDone => True
   end.
@@ -83,6 +83,7 @@ Definition coro_ok (s : st) (i : nat) : Prop :=
   | KLock j n => (n < nslots s)%nat /\ sst (slot_at s n) = SEmp /\ nco (slot_at s n) = i /\ nwi (slot_at s n) = j
   | KSusp j n => (n < nslots s)%nat /\ nco (slot_at s n) = i /\ nwi (slot_at s n) = j /\
                  (sst (slot_at s n) = SQueued \/ exists t, sst (slot_at s n) = SCan t \/ sst (slot_at s n) = SHeld t)
+  | KEnq _ _ => False      (* only the code that compares outside the mutex gets there *)
   | _ => True
   end.
 
@@ -430,14 +431,14 @@ Qed.
 Lemma Inv_kmove : forall s s' i K',
   Inv s ->
   (forall j n, kstat s i <> KLock j n) -> (forall j n, kstat s i <> KSusp j n) ->
-  (forall j n, K' <> KLock j n) -> (forall j n, K' <> KSusp j n) ->
+  (forall j n, K' <> KLock j n) -> (forall j n, K' <> KSusp j n) -> (forall j n, K' <> KEnq j n) ->
   (forall j, passed (kstat s i) j -> passed K' j) ->
   slots s' = slots s -> clients s' = clients s -> lst s' = lst s -> mtx s' = mtx s -> freel s' = freel s ->
   nver s' = nver s -> tokens s' = tokens s -> bad s' = bad s -> rlog s' = rlog s ->
   kstat s' i = K' -> (forall i', i' <> i -> kstat s' i' = kstat s i') -> (forall i', kex s' i' = kex s i') ->
   Inv s'.
 Proof.
-  intros s s' i K' I N1 N2 N3 N4 Hp Hsl Hcl Hlst Hmtx Hfr Hnv Htk Hbad Hlog Hki Hkne Hx.
+  intros s s' i K' I N1 N2 N3 N4 N5 Hp Hsl Hcl Hlst Hmtx Hfr Hnv Htk Hbad Hlog Hki Hkne Hx.
   assert (Hs : forall m, slot_at s' m = slot_at s m) by (intro; apply slot_at_frame; auto).
   assert (Hc : forall t, cst s' t = cst s t) by (intro; apply cst_frame; auto).
   assert (Hns : nslots s' = nslots s) by (unfold nslots; now rewrite Hsl).
@@ -462,7 +463,7 @@ Proof.
     + intros q Hq. rewrite Hs. apply C; auto.
     + intros q Hq. rewrite Hs. apply D; auto.
   - intro i'. unfold coro_ok. rewrite Hns. destruct (Nat.eq_dec i' i) as [->|Hn].
-    + rewrite Hki. destruct K'; auto; exfalso; [eapply N3|eapply N4]; eauto.
+    + rewrite Hki. destruct K'; auto; exfalso; [eapply N3|eapply N5|eapply N4]; eauto.
     + rewrite Hkne by auto. specialize (Ic i'). unfold coro_ok in Ic. destruct (kstat s i'); auto; rewrite Hs; auto.
   - rewrite Hvis; auto.
   - intros n Hn. rewrite Hvis in Hn. rewrite Hns, Hs. auto.
@@ -1182,6 +1183,19 @@ Lemma vis_not_state : forall s n, Inv s -> (n < nslots s)%nat ->
   (sst (slot_at s n) = SFree \/ sst (slot_at s n) = SEmp) -> ~ In n (vis s).
 Proof. intros s n I Hn Hs Hin. destruct (i_vis _ I n Hin) as [_ [V|[t V]]]; destruct Hs; congruence. Qed.
 
+Lemma finish_add_fixed_ok : forall s i k j n x tok, (x =? fv s) = true ->
+  finish_add cfg_fixed s i k j n x tok true =
+  set_coro (if tok then set_tokens (set_nnext (put_slot (set_lst s (n :: lst s)) n
+                                      (upd_slot (slot_at s n) (ver (slot_at s n)) true SQueued)) n (enc (hd_error (lst s))))
+                      (tokens s ++ [((i, j), (n, nidv (slot_at s n)))])
+            else set_nnext (put_slot (set_lst s (n :: lst s)) n
+                                      (upd_slot (slot_at s n) (ver (slot_at s n)) true SQueued)) n (enc (hd_error (lst s))))
+           i (set_kst k (KSusp j n)).
+Proof. intros. unfold finish_add. cbn [cfg_fixed rel_succ rel_fail cb_tok cb_notok]. rewrite H. destruct tok; reflexivity. Qed.
+Lemma finish_add_fixed_fail : forall s i k j n x tok,
+  finish_add cfg_fixed s i k j n x tok false = set_coro (release (take s n SFree) n) i (set_kst k (KReady (S j))).
+Proof. intros. unfold finish_add. cbn [cfg_fixed rel_succ rel_fail cb_tok cb_notok]. reflexivity. Qed.
+
 Lemma step_coro_inv : forall s i k s',
   Inv s -> nth_error (coros s) i = Some k -> step_coro cfg_fixed s i k = Some s' -> Inv s'.
 Proof.
@@ -1268,12 +1282,13 @@ Proof.
       * kxe Hk.
   - (* KLock j n *)
     destruct Ci as (Hn & Hgn & Hco & Hwi).
+    cbn [cfg_fixed cmp_locked] in Hst.
     destruct (mtx s) eqn:Em; [discriminate|]. destruct (nth_error (kprog k) j) as [[x tok]|] eqn:Ew; [|discriminate].
-    cbn [cfg_fixed add_when rel_succ rel_fail cb_tok cb_notok] in Hst.
+    unfold enq_ok in Hst. cbn [cfg_fixed add_when add_rejects] in Hst.
     pose proof (i_slot _ I n Hn) as Sn. unfold slot_ok in Sn. rewrite Hgn in Sn. destruct Sn as (S1 & S2 & S3 & S4).
     assert (Hnv : ~ In n (vis s)) by (apply vis_not_state; auto).
     assert (Hvs : vis s = lst s) by (rewrite (vis_eq s (lst s) None); auto; apply app_nil_r).
-    destruct (x =? fv s) eqn:Ex.
+    destruct (x =? fv s) eqn:Ex; [rewrite (finish_add_fixed_ok _ _ _ _ _ _ _ Ex) in Hst | rewrite finish_add_fixed_fail in Hst].
     + (* queued *)
       set (sl' := upd_slot (slot_at s n) (ver (slot_at s n)) true SQueued).
       set (s1 := set_nnext (put_slot (set_lst s (n :: lst s)) n sl') n (enc (hd_error (lst s)))) in *.
@@ -1361,6 +1376,8 @@ Proof.
       * intros m Hm. change (lst s') with (lst s) in Hm.
         assert (m <> n) by (intro; subst m; apply Hnv; unfold vis; apply in_app_iff; auto).
         rewrite Hso by auto. apply (i_linked _ I). auto.
+  - (* KEnq: not a state of the code that compares under the mutex *)
+    destruct Ci.
   - discriminate.
   - (* KResumed j *)
     inversion Hst; subst s'; clear Hst.
@@ -1535,8 +1552,29 @@ Lemma nonmatching_wait : forall s i k j n x tok s',
   lst s' = lst s /\ tokens s' = tokens s.
 Proof.
   intros s i k j n x tok s' Ek Ew Hx Hn Hst. unfold step_coro in Hst. rewrite Ek in Hst.
-  destruct (mtx s); [discriminate|]. rewrite Ew in Hst. cbn [cfg_fixed add_when rel_succ rel_fail cb_tok cb_notok] in Hst.
-  destruct (Z.eqb_spec x (fv s)); [contradiction|]. inversion Hst; subst s'. split; auto. cbn. auto.
+  cbn [cfg_fixed cmp_locked] in Hst.
+  destruct (mtx s); [discriminate|]. rewrite Ew in Hst. unfold enq_ok in Hst. cbn [cfg_fixed add_when add_rejects] in Hst.
+  destruct (Z.eqb_spec x (fv s)); [contradiction|]. rewrite finish_add_fixed_fail in Hst.
+  inversion Hst; subst s'. split; auto. cbn. auto.
+Qed.
+
+
+(* the value check and the enqueue are one step (FUTEX(2)-like atomicity): a coroutine that reaches add_awaiter either is
+   queued and suspended in that very step with the word equal to its expected value, or goes on without suspending *)
+Lemma suspend_atomic : forall s i k j n x tok s',
+  nth_error (coros s) i = Some k -> kstv k = KLock j n -> nth_error (kprog k) j = Some (x, tok) ->
+  step_coro cfg_fixed s i k = Some s' ->
+  (x = fv s /\ lst s' = n :: lst s /\ kstat s' i = KSusp j n) \/
+  (x <> fv s /\ lst s' = lst s /\ kstat s' i = KReady (S j)).
+Proof.
+  intros s i k j n x tok s' Hk Ek Ew Hst. unfold step_coro in Hst. rewrite Ek in Hst. cbn [cfg_fixed cmp_locked] in Hst.
+  destruct (mtx s); [discriminate|]. rewrite Ew in Hst. unfold enq_ok in Hst. cbn [cfg_fixed add_when add_rejects] in Hst.
+  destruct (Z.eqb_spec x (fv s)) as [e|e].
+  - rewrite finish_add_fixed_ok in Hst by (apply Z.eqb_eq; exact e). inversion Hst; subst s'. left. split; auto. split.
+    + destruct tok; reflexivity.
+    + apply kstat_set_eq. destruct tok; exact Hk.
+  - rewrite finish_add_fixed_fail in Hst. inversion Hst; subst s'. right. split; auto. split; [reflexivity|].
+    apply kstat_set_eq. exact Hk.
 Qed.
 
 (* ------------------------------------------------------------------ BasicCancellable: resume(id) vs cancel(id) *)
@@ -1636,6 +1674,24 @@ Theorem t_nonmatching : forall s i k j n x tok s',
   s' = set_coro (release (take s n SFree) n) i (set_kst k (KReady (S j))) /\ In n (freel s') /\
   lst s' = lst s /\ tokens s' = tokens s.
 Proof. rewrite gen_cfg_fixed. exact nonmatching_wait. Qed.
+
+Theorem t_suspend_atomic : forall s i k j n x tok s',
+  nth_error (coros s) i = Some k -> kstv k = KLock j n -> nth_error (kprog k) j = Some (x, tok) ->
+  step_coro gen_cfg s i k = Some s' ->
+  (x = fv s /\ lst s' = n :: lst s /\ kstat s' i = KSusp j n) \/
+  (x <> fv s /\ lst s' = lst s /\ kstat s' i = KReady (S j)).
+Proof. rewrite gen_cfg_fixed. exact suspend_atomic. Qed.
+
+(* a model of add_awaiter that compares the word before taking the mutex (seeded change C13d) loses a wakeup *)
+Definition cfg_cmp_unlocked : cfg :=
+  {| w1_adv := fun _ hn => hn; w1_stop_ok := true; w1_stop_fail := false; wa_adv := fun _ ns => ns; wa_saved := fun x => x;
+     rel_fail := true; rel_succ := false; cb_tok := true; cb_notok := false;
+     add_when := fun e v => negb (Z.eqb e v); add_rejects := true; cmp_locked := false;
+     unlink_linked := true; unlink_unlinked := false |}.
+Lemma unlocked_compare_lost_wakeup : exists sch,
+  let s := run st (step cfg_cmp_unlocked) (init 0 [[OSetV 1; OWakeAll]] [(0%nat, [(0, false)])]) sch in
+  quiescent s = true /\ map cres (clients s) = [[RV; RWA 0]] /\ map kstv (coros s) = [KSusp 0 0] /\ fv s = 1 /\ bad s = 1%nat.
+Proof. exists [1; 1; 0; 0; 1]%nat. vm_compute. auto. Qed.
 
 (* regression witnesses: the code before the three repairs (cfg_asis) *)
 Lemma asis_leak : exists sch,
